@@ -35,6 +35,7 @@ WHAT = {
     ("scope", "excas"): "`except .. as x` binds x in the function's own table (ignoring global/nonlocal) and removes the variable's cell afterwards",
     ("scope", "ndflt"): "a default expression of an inner definition that reads a variable of a function further out raises NameError (only names in bodies and decorators are captured)",
     ("scope", "dyncap"): "free variables are looked up in the tables of the CALLERS on the stack when a function is defined (dynamic scoping): a caller's local shadows the global",
+    ("scope", "nldyn"): "a name that an inner function declares nonlocal AND assigns is not passed on to the functions in between: its cell is looked up on the call stack when the inner function is defined - SyntaxError 'no binding for nonlocal' or a caller's same-named variable when the function in between is called from elsewhere",
     ("scope", "unexplained"): "tracer log is not the one the scoping machine computes",
     ("bind", "unexplained"): "call outcome is not the one Bind yields",
 }
@@ -163,6 +164,11 @@ def scope_jobs(ctx):
         base = ctx.seed * 1000003 + k * per
         jobs.append({"seeds": list(range(base, base + per)), "corrupt": 3, "out": os.path.join(ctx.scratch, "scope_%d.json" % k)})
     jobs[0]["explicit"] = witnesses()
+    # the capture family (which activation does a closure capture): every member in both tiers, thorough: 3 variations
+    fam = [(list(m), ctx.seed * 3 + v) for v in range(ctx.pick(1, 3)) for m in S.cap_members()]
+    ncap = 2
+    for k in range(ncap):
+        jobs.append({"seeds": [], "capture": fam[k::ncap], "out": os.path.join(ctx.scratch, "scope_cap%d.json" % k)})
     return jobs
 
 
@@ -173,7 +179,7 @@ def accept_scope(ctx, path):
 def scope_pipeline(ctx):
     t0 = time.time()
     jobs = scope_jobs(ctx)
-    stats = run_workers("harness.drivers.c03_scope", "work_scope", jobs, ctx.scratch, nproc=4)
+    stats = run_workers("harness.drivers.c03_scope", "work_scope", jobs, ctx.scratch, nproc=6)
     t1 = time.time()
     results = parallel([(lambda st=st: accept_scope(ctx, st["out"])) for st in stats], max_workers=1 if (DEV or SEQ) else 4)
     return stats, results, (t1 - t0, time.time() - t1)
@@ -187,9 +193,11 @@ def report_scope(ctx, stats, results, label="scope"):
     why_count, marks_count = {}, {}
     accepted = []
     ncorrupt = 0
+    cap = {"programs": 0, "ambiguous": 0, "nldyn": 0, "swap_corruptions": 0, "rejected": 0, "by_stack": {}, "by_via": {}}
     for st, res in zip(stats, results):
         for k in tot:
             tot[k] += st[k]
+        cap["swap_corruptions"] += len(st.get("swap", []))
         for c, n in st["constructs"].items():
             constructs[c] = constructs.get(c, 0) + n
         for d, n in st["depth"].items():
@@ -217,7 +225,19 @@ def report_scope(ctx, stats, results, label="scope"):
             mk = marks.get(pid, [])
             for x in mk:
                 marks_count[x] = marks_count.get(x, 0) + 1
-            is_masked = not m["loci"] and not [x for x in mk if x not in ("sv", "xdel")]
+            is_masked = not m["loci"] and not [x for x in mk if x not in ("sv", "xdel", "amb")]
+            fam = m.get("family")
+            if fam:
+                # witness: the machine's census of the ambiguous situations agrees with how the member was assembled
+                if ("amb" in mk) != fam["ambiguous"]:
+                    raise MachineryFailure("capture family: member %s assembled %s a same-named variable on the stack, the "
+                                           "machine's census says %s\n%s" % (pid, "with" if fam["ambiguous"] else "without", mk, m["src"]))
+                cap["programs"] += 1
+                cap["ambiguous"] += "amb" in mk
+                cap["nldyn"] += "nldyn" in mk
+                cap["rejected"] += pid in rejected
+                for dim in ("stack", "via"):
+                    cap["by_" + dim][fam[dim]] = cap["by_" + dim].get(fam[dim], 0) + 1
             if "sv" in mk or "xdel" in mk:
                 skipped += 1
             if is_masked:
@@ -246,6 +266,10 @@ def report_scope(ctx, stats, results, label="scope"):
     if label == "scope":
         if ncorrupt < 6:
             raise MachineryFailure("selftest: too few accepted scoping recordings to corrupt (%d)" % ncorrupt)
+        nmem = len(S.cap_members())
+        if cap["programs"] < nmem or cap["ambiguous"] < nmem // 2 or cap["swap_corruptions"] < nmem // 4:
+            raise MachineryFailure("vacuous capture family: %s" % cap)
+        ctx.cov["capture_family"] = cap
         ctx.cov["selftest_corruptions_rejected"] = ctx.cov.get("selftest_corruptions_rejected", 0) + ncorrupt
     ctx.cov[label] = dict(tot, masked_programs=masked, unmasked_programs=unmasked, masked_rejections=masked_rej,
                           unmasked_rejections=unmasked_rej, not_demanded=skipped, distinct_programs=len(shapes),
@@ -371,6 +395,19 @@ def witnesses():
                                  {"k": "def", "x": "f1", "c": 5, "decos": [], "g": 0},
                                  {"k": "ret", "e": call(call(N("f0"))), "g": 0}]),
         S.new_code("func", body=[{"k": "ret", "e": N("v0"), "g": 0}])])
+    # nldyn: def f0(): v0 = 5; def f1(): def f2(): nonlocal v0; v0 = v0 - 1; return v0 ; return f2() ; return f1
+    #        v1 = f0(); ev(v1())          (f1 is called when f0 is no longer on the stack)
+    add("nldyn", [
+        S.new_code("module", body=[{"k": "def", "x": "f0", "c": 2, "decos": [], "g": 0},
+                                   {"k": "assign", "x": "v1", "e": call(N("f0")), "g": 0},
+                                   {"k": "expr", "e": ev(1, call(N("v1"))), "g": 2}]),
+        S.new_code("func", body=[{"k": "assign", "x": "v0", "e": I(5), "g": 0},
+                                 {"k": "def", "x": "f1", "c": 3, "decos": [], "g": 0},
+                                 {"k": "ret", "e": N("f1"), "g": 0}]),
+        S.new_code("func", body=[{"k": "def", "x": "f2", "c": 4, "decos": [], "g": 0},
+                                 {"k": "ret", "e": call(N("f2")), "g": 0}]),
+        S.new_code("func", nonlocals=["v0"], body=[{"k": "assign", "x": "v0", "e": {"k": "sub1", "a": N("v0")}, "g": 0},
+                                                   {"k": "ret", "e": N("v0"), "g": 0}])])
     return ws
 
 
@@ -396,6 +433,9 @@ def replay(ctx):
     seed = case["seed"]
     if isinstance(seed, str) and seed.startswith("w:"):
         job = {"seeds": [], "explicit": [w for w in witnesses() if w["seed"] == seed], "out": out}
+    elif isinstance(seed, str) and seed.startswith("r:"):
+        via, acc, var, stack, rs = seed[2:].split("/")
+        job = {"seeds": [], "capture": [([via, acc, var, stack], int(rs))], "out": out}
     else:
         job = {"seeds": [seed], "out": out}
     stats = run_workers("harness.drivers.c03_scope", "work_scope", [job], ctx.scratch, nproc=1)
